@@ -1,7 +1,981 @@
-//! C10 — not built yet (stub).
+//! C10 — Authoritative answers follow the RFC 1034 §4.3.2 algorithm.
+//!
+//! Generated zones (gen::zones) are loaded into hickory's `InMemoryZoneHandler` through
+//! `upsert_mut` (optionally signed with NSEC / NSEC3) and — independently — rendered into the
+//! reference model `refm::auth_ref`. Queries go in as octets: `Request::from_bytes` →
+//! `Catalog::handle_request::<_, SimTime>` → the real `ResponseHandle` → response octets, which
+//! are read back with the harness's own wire reader (`refm::wire_lite`).
 
-use crate::core::Check;
+use std::collections::{BTreeMap, BTreeSet};
+use std::net::SocketAddr;
+use std::sync::Arc;
+
+use futures_util::{FutureExt, StreamExt};
+use hickory_net::xfer::Protocol;
+use hickory_net::BufDnsStreamHandle;
+use hickory_proto::dnssec::crypto::Ed25519SigningKey;
+use hickory_proto::dnssec::rdata::DNSKEY;
+use hickory_proto::dnssec::{DnssecSigner, Nsec3HashAlgorithm, SigningKey};
+use hickory_proto::rr::LowerName;
+use hickory_server::dnssec::NxProofKind;
+use hickory_server::server::{Request, RequestHandler, ResponseHandle};
+use hickory_server::store::in_memory::InMemoryZoneHandler;
+use hickory_server::zone_handler::{AxfrPolicy, Catalog, ZoneType};
+use proptest::collection::vec;
+use proptest::prelude::*;
+use serde::{Deserialize, Serialize};
+
+use crate::core::{enumerate, prop, CaseResult, Check, Fail, Rec, Tier};
+use crate::gen::zones::{self, hname, MRData, MRec, MZone, SOA_SERIAL};
+use crate::refm::auth_ref::{self, AuthExpect, Expect, NoDataKind, PathKind, RefZone, Rr, Step};
+use crate::refm::canon;
+use crate::refm::wire_lite::{self as wl, Name};
+use crate::sim::{SimRt, SimTime};
+
+pub const QTYPES: [u16; 9] = [
+    wl::T_A,
+    wl::T_AAAA,
+    wl::T_MX,
+    wl::T_NS,
+    wl::T_CNAME,
+    wl::T_SOA,
+    wl::T_DS,
+    wl::T_TXT,
+    wl::T_ANY,
+];
+
+// Signatures of the RFC 4592 deviations upstream itself documents (`#[ignore]`d tests in
+// tests/integration-tests/tests/integration/rfc4592_tests.rs). Each is a predicate over
+// (zone, reference outcome, actual response) — see `classify` — narrow enough for one root cause.
+pub const SIG_PAST_ENCLOSER: &str = "wildcard-synthesis-past-closest-encloser";
+pub const SIG_AT_EXISTING: &str = "wildcard-synthesis-at-existing-name";
+pub const SIG_WILD_NODATA_NX: &str = "wildcard-nodata-as-nxdomain";
+pub const SIG_ASTERISK_QNAME: &str = "asterisk-qname-not-matched-by-wildcard";
+/// RFC 1034 §6.2.6 (referral example: header without AA), RFC 1035 §4.1.1
+pub const SIG_REFERRAL_AA: &str = "referral-with-aa-set";
+
+/// the referral test in `build_authoritative_response` is skipped for QTYPE NS and ANY: the cut's NS
+/// RRset goes into the answer section (AA set) instead of a referral
+pub const SIG_NS_ANY_AT_CUT: &str = "ns-or-any-query-at-or-below-cut-answered-not-referred";
+/// for QTYPE=SOA `build_authoritative_response` puts the apex NS RRset into the authority section
+/// whatever the lookup returned: a referral then carries two NS RRsets, a wildcard answer loses
+/// its denial proof
+pub const SIG_SOA_QTYPE: &str = "soa-qtype-apex-ns-forced-into-authority";
+
+/// `inner_lookup` looks for a delegation from QNAME upwards and stops at the first NS owner
+pub const SIG_NESTED_CUT: &str = "referral-to-occluded-ns-below-the-closest-cut";
+
+pub const SIG_CNAME_CUT: &str = "cname-chase-puts-delegation-ns-into-answer";
+
+/// `closest_nsec` recognises the last NSEC of the chain by `next < owner`; with a single NSEC
+/// (`next == owner`) nothing covers a non-existent name
+pub const SIG_SINGLE_NSEC: &str = "nxdomain-without-nsec-when-chain-has-one-nsec";
+
+/// the apex is the only name with authoritative data (the NSEC chain is `apex NSEC apex`)
+fn single_nsec_zone(z: &RefZone) -> bool {
+    z.nodes
+        .iter()
+        .filter(|(_, v)| !v.is_empty())
+        .all(|(k, _)| *k == z.origin || z.cut_on_path(k).is_some_and(|c| c.len() < k.len()))
+}
+
+/// signatures listed as known for C10: used only to order the failures found inside one zone, so
+/// that a known deviation of one query never hides an unknown one of another query (DESIGN §6:
+/// "the search continues behind them"). Whether a failure is excluded is still the engine's call.
+fn known_sigs() -> &'static BTreeSet<String> {
+    static K: std::sync::OnceLock<BTreeSet<String>> = std::sync::OnceLock::new();
+    K.get_or_init(|| {
+        let mut out = BTreeSet::new();
+        if let Ok(txt) = std::fs::read_to_string(crate::core::vpath("known_findings.json")) {
+            if let Ok(v) = serde_json::from_str::<serde_json::Value>(&txt) {
+                for f in v["findings"].as_array().cloned().unwrap_or_default() {
+                    if f["property"] == "C10" && f["status"] == "known" {
+                        if let Some(s) = f["signature"].as_str() {
+                            out.insert(s.to_string());
+                        }
+                    }
+                }
+            }
+        }
+        out
+    })
+}
+
+#[derive(Clone, Debug, PartialEq, Eq, Serialize, Deserialize)]
+pub enum Sign {
+    Unsigned,
+    Nsec,
+    Nsec3 { iterations: u8, salt_len: u8, opt_out: bool },
+}
+
+impl Sign {
+    fn label(&self) -> &'static str {
+        match self {
+            Sign::Unsigned => "unsigned",
+            Sign::Nsec => "nsec",
+            Sign::Nsec3 { opt_out: false, .. } => "nsec3",
+            Sign::Nsec3 { opt_out: true, .. } => "nsec3-optout",
+        }
+    }
+    fn signed(&self) -> bool {
+        *self != Sign::Unsigned
+    }
+}
+
+#[derive(Clone, Debug, Serialize, Deserialize)]
+pub struct QSpec {
+    pub name: String,
+    pub do_bit: bool,
+    pub edns: bool,
+    pub tcp: bool,
+    /// letters of the query name to send in upper case (bit i ↔ i-th letter, cyclic)
+    pub upper: u16,
+}
+
+#[derive(Clone, Debug, Serialize, Deserialize)]
+pub struct Case {
+    pub zone: MZone,
+    pub sign: Sign,
+    pub queries: Vec<QSpec>,
+}
+
+fn sign_strategy() -> impl Strategy<Value = Sign> {
+    prop_oneof![
+        4 => Just(Sign::Unsigned),
+        2 => Just(Sign::Nsec),
+        2 => (0u8..3, prop_oneof![Just(0u8), Just(4u8)], prop::bool::weighted(0.25))
+            .prop_map(|(iterations, salt_len, opt_out)| Sign::Nsec3 { iterations, salt_len, opt_out }),
+    ]
+}
+
+fn qspec(names: (Vec<String>, Vec<String>)) -> impl Strategy<Value = QSpec> {
+    let (core, near) = names;
+    let name = prop_oneof![
+        5 => prop::sample::select(core),
+        4 => prop::sample::select(near),
+    ];
+    (name, any::<bool>(), any::<bool>(), any::<bool>(), prop_oneof![3 => Just(0u16), 1 => any::<u16>()]).prop_map(
+        |(name, do_bit, edns, tcp, upper)| QSpec {
+            name,
+            do_bit,
+            edns: edns || do_bit,
+            tcp,
+            upper,
+        },
+    )
+}
+
+fn case_strategy(tier: Tier) -> impl Strategy<Value = Case> {
+    let max_feats = match tier {
+        Tier::Quick => 7,
+        Tier::Thorough => 9,
+    };
+    zones::zone(max_feats).prop_flat_map(|z| {
+        let names = zones::around(&z);
+        (Just(z), sign_strategy(), vec(qspec(names), 5..=8)).prop_map(|(zone, sign, queries)| Case { zone, sign, queries })
+    })
+}
+
+// ---------------------------------------------------------------------------------------------
+// the system under test
+
+fn harness(msg: impl Into<String>) -> Fail {
+    Fail::new("harness", msg)
+}
+
+pub fn build_handler(z: &MZone, sign: &Sign) -> Result<InMemoryZoneHandler<SimRt>, Fail> {
+    let nx = match sign {
+        Sign::Unsigned => None,
+        Sign::Nsec => Some(NxProofKind::Nsec),
+        Sign::Nsec3 {
+            iterations,
+            salt_len,
+            opt_out,
+        } => Some(NxProofKind::Nsec3 {
+            algorithm: Nsec3HashAlgorithm::SHA1,
+            salt: Arc::from(vec![0xabu8; *salt_len as usize]),
+            iterations: *iterations as u16,
+            opt_out: *opt_out,
+        }),
+    };
+    let origin = hname(&z.origin);
+    let mut h = InMemoryZoneHandler::<SimRt>::empty(origin.clone(), ZoneType::Primary, AxfrPolicy::Deny, nx);
+    for r in z.hickory_records() {
+        let shown = format!("{r}");
+        if !h.upsert_mut(r, SOA_SERIAL) {
+            // the generator only builds zones a primary accepts; a refusal is a generator bug
+            return Err(harness(format!("upsert_mut refused {shown}")));
+        }
+    }
+    if sign.signed() {
+        let kp = ring::signature::Ed25519KeyPair::from_seed_unchecked(&[0x42; 32]).map_err(|e| harness(format!("key: {e}")))?;
+        let key = Ed25519SigningKey::from_ed25519(kp);
+        let pk = key.to_public_key().map_err(|e| harness(format!("public key: {e}")))?;
+        let signer = DnssecSigner::new(
+            DNSKEY::from_key(&pk),
+            Box::new(key),
+            origin,
+            std::time::Duration::from_secs(7 * 86400),
+        );
+        h.add_zone_signing_key_mut(signer).map_err(|e| harness(format!("add key: {e}")))?;
+        h.secure_zone_mut().map_err(|e| harness(format!("secure_zone: {e}")))?;
+    }
+    Ok(h)
+}
+
+pub fn catalog_for(z: &MZone, sign: &Sign) -> Result<Catalog, Fail> {
+    let h = build_handler(z, sign)?;
+    let mut c = Catalog::new();
+    c.upsert(LowerName::from(hname(&z.origin)), vec![Arc::new(h)]);
+    Ok(c)
+}
+
+/// send request octets through the catalog; returns every message the response handle emitted
+pub fn ask(catalog: &Catalog, bytes: Vec<u8>, tcp: bool) -> Result<Vec<Vec<u8>>, Fail> {
+    let src: SocketAddr = "192.0.2.77:5353".parse().unwrap();
+    let proto = if tcp { Protocol::Tcp } else { Protocol::Udp };
+    let req = Request::from_bytes(bytes, src, proto).map_err(|e| Fail::new("valid-query-rejected", format!("Request::from_bytes: {e}")))?;
+    let (handle, mut rx) = BufDnsStreamHandle::new(src);
+    let rh = ResponseHandle::new(src, handle, proto);
+    futures_executor::block_on(catalog.handle_request::<_, SimTime>(&req, rh));
+    let mut out = Vec::new();
+    while let Some(Some(m)) = rx.next().now_or_never() {
+        out.push(m.into_parts().0);
+    }
+    Ok(out)
+}
+
+// ---------------------------------------------------------------------------------------------
+// observation
+
+#[derive(Clone, Debug)]
+struct ARr {
+    owner: Name,
+    rtype: u16,
+    rdata: Vec<u8>,
+    /// for RRSIG: (type covered, labels field)
+    covers: Option<(u16, u8)>,
+}
+
+#[derive(Clone, Debug)]
+struct Actual {
+    rcode: u16,
+    aa: bool,
+    tc: bool,
+    answer: Vec<ARr>,
+    authority: Vec<ARr>,
+}
+
+fn observe(resp: &[u8], id: u16) -> Result<Actual, Fail> {
+    let m = wl::parse(resp).map_err(|e| Fail::new("response-unparseable", format!("{e:?}: {}", crate::core::hexser::to_hex(resp))))?;
+    vensure!(m.header.qr, "response-without-qr", "QR clear in response");
+    vensure!(m.header.id == id, "response-id-mismatch", "sent id {id}, got {}", m.header.id);
+    let conv = |rrs: &[wl::Rr]| -> Result<Vec<ARr>, Fail> {
+        rrs.iter()
+            .map(|rr| {
+                Ok(ARr {
+                    owner: canon::lower(&rr.owner),
+                    rtype: rr.rtype,
+                    rdata: wl::rdata_canon(resp, rr).map_err(|e| Fail::new("response-unparseable", format!("rdata {e:?}")))?,
+                    covers: wl::rrsig_head(resp, rr).map(|(t, _, l)| (t, l)),
+                })
+            })
+            .collect()
+    };
+    Ok(Actual {
+        rcode: m.rcode(),
+        aa: m.header.aa,
+        tc: m.header.tc,
+        answer: conv(&m.answers)?,
+        authority: conv(&m.authorities)?,
+    })
+}
+
+fn is_dnssec_meta(t: u16) -> bool {
+    matches!(t, wl::T_RRSIG | wl::T_NSEC | wl::T_NSEC3)
+}
+
+fn show_arrs(v: &[ARr]) -> String {
+    let s: Vec<String> = v
+        .iter()
+        .map(|r| match r.covers {
+            Some((t, _)) => format!("{} RRSIG({})", canon::show(&r.owner), wl::type_name(t)),
+            None => auth_ref::show_rr(&(r.owner.clone(), r.rtype, r.rdata.clone())),
+        })
+        .collect();
+    format!("[{}]", s.join("; "))
+}
+
+// ---------------------------------------------------------------------------------------------
+// the documented RFC 4592 deviations, as predicates over (zone, reference outcome, response)
+
+/// If every record in `at_n` (all owned by `n`) is exactly one RRset of a wildcard `*.A` with `A`
+/// a proper ancestor of `n` inside the zone, return `A`.
+fn synthesized_from(z: &RefZone, n: &[Vec<u8>], at_n: &[&ARr]) -> Option<Name> {
+    let first = at_n.first()?;
+    let t = first.rtype;
+    if at_n.iter().any(|r| r.rtype != t) {
+        return None;
+    }
+    let got: BTreeSet<&Vec<u8>> = at_n.iter().map(|r| &r.rdata).collect();
+    let mut anc = &n[1..];
+    loop {
+        if !z.in_zone(anc) {
+            return None;
+        }
+        let w = auth_ref::wildcard_of(anc);
+        if let Some(set) = z.rrset(&w, t) {
+            if set.iter().collect::<BTreeSet<_>>() == got {
+                return Some(anc.to_vec());
+            }
+        }
+        if anc.is_empty() {
+            return None;
+        }
+        anc = &anc[1..];
+    }
+}
+
+fn classify(z: &RefZone, qname: &[Vec<u8>], qtype: u16, exp: &Expect, act: &Actual) -> Option<&'static str> {
+    let data: Vec<&ARr> = act.answer.iter().filter(|r| !is_dnssec_meta(r.rtype)).collect();
+    let n = &exp.final_name;
+    let expected: BTreeSet<Rr> = exp.chain.iter().cloned().chain(exp.terminal.iter().cloned()).collect();
+    // records of a fitting type at the name where the reference stopped that the reference does not
+    // have there (whatever else follows a wrongly synthesised CNAME is a consequence of it)
+    let type_fits = |r: &ARr| r.rtype == qtype || r.rtype == wl::T_CNAME || qtype == wl::T_ANY;
+    let mut at_n: Vec<&ARr> = data
+        .iter()
+        .copied()
+        .filter(|r| &r.owner == n && type_fits(r) && !expected.contains(&(r.owner.clone(), r.rtype, r.rdata.clone())))
+        .collect();
+    if let Some(c) = at_n.iter().find(|r| r.rtype == wl::T_CNAME).map(|r| r.rtype) {
+        at_n.retain(|r| r.rtype == c);
+    }
+    if let (AuthExpect::Referral { ns, .. }, true) = (&exp.authority, qtype == wl::T_NS || qtype == wl::T_ANY) {
+        let got: BTreeSet<Rr> = data.iter().map(|r| (r.owner.clone(), r.rtype, r.rdata.clone())).collect();
+        if &got == ns && act.rcode == wl::RC_NOERROR && !act.authority.iter().any(|r| r.rtype == wl::T_NS) {
+            return Some(SIG_NS_ANY_AT_CUT);
+        }
+    }
+    let synth = synthesized_from(z, n, &at_n);
+    if let Some(a) = synth {
+        // number of labels of the only legitimate source of synthesis, `*.<closest encloser>`
+        let legit_source_len = match &exp.final_step {
+            // RFC 4592 §2.2.2 / §3.3.1: an existing name (data of other types, or an empty non-terminal)
+            // is never a subject of synthesis — upstream: "hickory does not check for blocking names"
+            Step::NoData {
+                kind: NoDataKind::Existing | NoDataKind::Ent,
+            } => return Some(SIG_AT_EXISTING),
+            Step::NxDomain { closest_encloser: ce } => Some(ce.len() + 1),
+            Step::NoData {
+                kind: NoDataKind::Wildcard { source },
+            } => Some(source.len()),
+            Step::Data {
+                via_wildcard: Some(source),
+                any: true,
+                ..
+            } => Some(source.len()),
+            _ => None,
+        };
+        // RFC 4592 §3.3.1: only `*.<closest encloser>` may be the source — upstream: "hickory does not
+        // treat wildcards as blocking themselves" (the search walks on to `*.<ancestor>`)
+        if legit_source_len.is_some_and(|l| a.len() + 1 < l) {
+            return Some(SIG_PAST_ENCLOSER);
+        }
+    }
+    // RFC 1034 §4.3.2 3b: matching down from the apex stops at the *first* cut; NS records below it are
+    // occluded. The server walks up from QNAME and refers to the deepest NS owner it meets.
+    if let AuthExpect::Referral { cut, .. } = &exp.authority {
+        // (for QTYPE NS/ANY the same NS RRset shows up in the answer section, see SIG_NS_ANY_AT_CUT)
+        let in_answer = (qtype == wl::T_NS || qtype == wl::T_ANY) && !data.is_empty();
+        // (for QTYPE SOA the apex NS RRset is appended as well, see SIG_SOA_QTYPE)
+        let ns: Vec<&ARr> = if in_answer {
+            data.clone()
+        } else {
+            act.authority
+                .iter()
+                .filter(|r| r.rtype == wl::T_NS && !(qtype == wl::T_SOA && r.owner == z.origin))
+                .collect()
+        };
+        if let Some(first) = ns.first() {
+            let lq = canon::lower(qname);
+            let deeper = &first.owner;
+            if deeper.len() > cut.len()
+                && canon::is_suffix(cut, deeper)
+                && canon::is_suffix(deeper, &lq)
+                && ns.iter().all(|r| &r.owner == deeper && r.rtype == wl::T_NS)
+                && z.rrset(deeper, wl::T_NS).is_some_and(|set| set.iter().collect::<BTreeSet<_>>() == ns.iter().map(|r| &r.rdata).collect())
+                && (in_answer || data.is_empty())
+            {
+                return Some(SIG_NESTED_CUT);
+            }
+        }
+    }
+    // `chase_cnames` treats the NS RRset that `inner_lookup` returns for a name at/below a cut as the
+    // terminal record of the chain and copies it into the answer section
+    if let (Step::Referral { .. }, false) = (&exp.final_step, exp.chain.is_empty()) {
+        let chain: BTreeSet<Rr> = exp.chain.iter().cloned().collect();
+        let rest: Vec<&ARr> = data
+            .iter()
+            .copied()
+            .filter(|r| !chain.contains(&(r.owner.clone(), r.rtype, r.rdata.clone())))
+            .collect();
+        if let Some(first) = rest.first() {
+            let c = &first.owner;
+            if rest.iter().all(|r| r.rtype == wl::T_NS && &r.owner == c)
+                && z.is_cut(c)
+                && canon::is_suffix(c, n)
+                && z.rrset(c, wl::T_NS).is_some_and(|set| set.iter().collect::<BTreeSet<_>>() == rest.iter().map(|r| &r.rdata).collect())
+                && data.len() == rest.len() + chain.len()
+            {
+                return Some(SIG_CNAME_CUT);
+            }
+        }
+    }
+    // the next one only concerns the original QNAME answered with an empty NXDOMAIN although its source
+    // of synthesis exists
+    let denied_empty = act.rcode == wl::RC_NXDOMAIN && data.is_empty();
+    if denied_empty && exp.chain.is_empty() && !exp.name_exists {
+        let nodata = matches!(
+            exp.final_step,
+            Step::NoData {
+                kind: NoDataKind::Wildcard { .. }
+            }
+        );
+        let any = matches!(
+            exp.final_step,
+            Step::Data {
+                any: true,
+                via_wildcard: Some(_),
+                ..
+            }
+        );
+        if nodata || any {
+            // RFC 4592 §3.3 / §2.2.1 (host3.example A): "no error, but no data" — upstream: "hickory
+            // only checks for one record type during wildcard synthesis (issue #2905)"
+            return Some(SIG_WILD_NODATA_NX);
+        }
+    }
+    // RFC 1034 §4.3.3: "A * label appearing in a query name has no special effect". For a name that
+    // starts with `*`, does not exist and is covered by a wildcard — the original QNAME or a CNAME
+    // target met while chasing — the reference synthesises; the server treats the name as a wildcard
+    // owner, finds nothing and stops there.
+    let mut names: Vec<&Name> = exp.chain.iter().map(|r| &r.0).collect();
+    names.push(&exp.final_name);
+    if let Some(i) = names.iter().position(|nm| nm.first().is_some_and(|l| l == b"*") && !z.exists(nm)) {
+        let synthesised_there = i < exp.chain.len() || matches!(exp.final_step, Step::Data { via_wildcard: Some(_), .. });
+        if synthesised_there {
+            let prefix: BTreeSet<Rr> = exp.chain[..i].iter().cloned().collect();
+            let got: BTreeSet<Rr> = data.iter().map(|r| (r.owner.clone(), r.rtype, r.rdata.clone())).collect();
+            let rcode_fits = if i == 0 { act.rcode == wl::RC_NXDOMAIN } else { act.rcode == wl::RC_NOERROR };
+            if got == prefix && rcode_fits {
+                return Some(SIG_ASTERISK_QNAME);
+            }
+        }
+    }
+    None
+}
+
+// ---------------------------------------------------------------------------------------------
+// the oracle
+
+struct Verdict {
+    fail: Option<Fail>,
+    truncated: bool,
+}
+
+/// QTYPE=ANY may also be answered like a query for one concrete type (RFC 8482 §4.1: "a response with
+/// a single RRset"; when that RRset is a CNAME the server may go on and chase it for that type): if
+/// the answer holds records of other owners, it must be a correct answer for one of the data types.
+#[allow(clippy::too_many_arguments)]
+fn judge(z: &RefZone, sign: &Sign, q: &QSpec, qname: &[Vec<u8>], qtype: u16, exp: &Expect, act: &Actual, ctx: &dyn Fn() -> String) -> Verdict {
+    let v = judge_as(z, sign, q, qname, qtype, exp, act, ctx);
+    let lq = canon::lower(qname);
+    let foreign = act.answer.iter().any(|r| !is_dnssec_meta(r.rtype) && r.owner != lq);
+    if qtype != wl::T_ANY || v.fail.is_none() || !foreign || !exp.terminal.iter().any(|r| r.1 == wl::T_CNAME) {
+        return v;
+    }
+    let mut first_alt = None;
+    for alt in [wl::T_A, wl::T_AAAA, wl::T_MX, wl::T_TXT] {
+        let e = z.answer(qname, alt);
+        let va = judge_as(z, sign, q, qname, alt, &e, act, ctx);
+        if va.fail.is_none() {
+            return va;
+        }
+        first_alt.get_or_insert(va);
+    }
+    first_alt.unwrap_or(v)
+}
+
+#[allow(clippy::too_many_arguments)]
+fn judge_as(z: &RefZone, sign: &Sign, q: &QSpec, qname: &[Vec<u8>], qtype: u16, exp: &Expect, act: &Actual, ctx: &dyn Fn() -> String) -> Verdict {
+    let mut v = Verdict {
+        fail: None,
+        truncated: act.tc,
+    };
+    if act.tc {
+        // sections were cut to fit: nothing below can be compared (C03's subject)
+        return v;
+    }
+    let p = exp.path.label();
+    let fail = |aspect: &str, what: String| Fail::new(format!("{p}:{aspect}"), format!("{what}\n{}", ctx()));
+
+    if let Some(sig) = classify(z, qname, qtype, exp, act) {
+        v.fail = Some(Fail::new(sig, format!("matches a recorded deviation predicate (see classify)\n{}", ctx())));
+        return v;
+    }
+
+    let r = (|| -> Result<(), Fail> {
+        // --- rcode -----------------------------------------------------------------------------
+        if !exp.rcodes.contains(&act.rcode) {
+            return Err(fail(
+                "rcode",
+                format!(
+                    "rcode {} but the reference allows {:?}",
+                    wl::rcode_name(act.rcode),
+                    exp.rcodes.iter().map(|r| wl::rcode_name(*r)).collect::<Vec<_>>()
+                ),
+            ));
+        }
+        // --- never data from below a cut (answer and authority sections) -------------------------
+        for (sec, rrs) in [("answer", &act.answer), ("authority", &act.authority)] {
+            for r in rrs.iter() {
+                let t = r.covers.map(|c| c.0).unwrap_or(r.rtype);
+                if z.occluded(&r.owner, t) {
+                    return Err(Fail::new(
+                        format!("data-from-below-cut:{sec}"),
+                        format!("{} {} sits at/below a zone cut\n{}", canon::show(&r.owner), wl::type_name(t), ctx()),
+                    ));
+                }
+            }
+        }
+        // --- answer section as a set ---------------------------------------------------------------
+        let data: Vec<&ARr> = act.answer.iter().filter(|r| !is_dnssec_meta(r.rtype)).collect();
+        let got: BTreeSet<Rr> = data.iter().map(|r| (r.owner.clone(), r.rtype, r.rdata.clone())).collect();
+        if exp.any {
+            // RFC 8482 §4: any subset of the RRsets at the name (here: ⊆, and owned by QNAME)
+            let lq = canon::lower(qname);
+            for r in &data {
+                if r.owner == lq {
+                    let zone_meta = sign.signed() && matches!(r.rtype, wl::T_DNSKEY | wl::T_NSEC3PARAM);
+                    if !zone_meta && !exp.terminal.contains(&(r.owner.clone(), r.rtype, r.rdata.clone())) {
+                        return Err(fail("answer-not-subset", format!("ANY returned a record that is not at the name: {}", show_arrs(&[(*r).clone()]))));
+                    }
+                } else {
+                    return Err(fail("answer-foreign-owner", format!("ANY returned a record of another owner: {}", show_arrs(&[(*r).clone()]))));
+                }
+            }
+        } else {
+            let ok = RefZone::acceptable_answers(exp);
+            if !ok.contains(&got) {
+                return Err(fail(
+                    "answer",
+                    format!("answer section {} ; reference {}", auth_ref::show_set(&got), auth_ref::show_set(&ok[0])),
+                ));
+            }
+            if !exp.chain.is_empty() && data.len() != got.len() {
+                return Err(fail("answer-duplicates", "a chased answer repeats a record (loop not cut)".into()));
+            }
+        }
+        // --- authority section ---------------------------------------------------------------------
+        match &exp.authority {
+            AuthExpect::Unspecified => {}
+            AuthExpect::Soa => {
+                let has = act.authority.iter().any(|r| r.rtype == wl::T_SOA && r.owner == z.origin);
+                if !has {
+                    return Err(fail("soa-missing", format!("negative answer without the zone's SOA in authority: {}", show_arrs(&act.authority))));
+                }
+                if let Some(set) = z.rrset(&z.origin, wl::T_SOA) {
+                    let same = act.authority.iter().filter(|r| r.rtype == wl::T_SOA).all(|r| set.contains(&r.rdata));
+                    if !same {
+                        return Err(fail("soa-rdata", "SOA in authority differs from the zone's SOA".into()));
+                    }
+                }
+            }
+            AuthExpect::Referral { cut, ns } => {
+                let got_ns: BTreeSet<Rr> = act
+                    .authority
+                    .iter()
+                    .filter(|r| r.rtype == wl::T_NS)
+                    .map(|r| (r.owner.clone(), r.rtype, r.rdata.clone()))
+                    .collect();
+                if &got_ns != ns {
+                    let apex: BTreeSet<Rr> = z
+                        .rrset(&z.origin, wl::T_NS)
+                        .map(|s| s.iter().map(|rd| (z.origin.clone(), wl::T_NS, rd.clone())).collect())
+                        .unwrap_or_default();
+                    if qtype == wl::T_SOA && got_ns == ns.union(&apex).cloned().collect() {
+                        return Err(Fail::new(SIG_SOA_QTYPE, format!("referral for an SOA query also carries the apex NS RRset\n{}", ctx())));
+                    }
+                    return Err(fail(
+                        "authority-ns",
+                        format!(
+                            "referral must carry exactly the NS RRset of {} ; authority has {}",
+                            canon::show(cut),
+                            auth_ref::show_set(&got_ns)
+                        ),
+                    ));
+                }
+                if act.authority.iter().any(|r| r.rtype == wl::T_SOA) {
+                    return Err(fail("authority-soa", "referral carries an SOA".into()));
+                }
+            }
+        }
+        // --- DNSSEC: signed zone and DO set ----------------------------------------------------------
+        if sign.signed() && q.do_bit {
+            for (sec, rrs) in [("answer", &act.answer), ("authority", &act.authority)] {
+                let mut sets: BTreeMap<(Name, u16), bool> = BTreeMap::new();
+                for r in rrs.iter() {
+                    if r.rtype != wl::T_RRSIG {
+                        sets.entry((r.owner.clone(), r.rtype)).or_insert(false);
+                    }
+                }
+                for r in rrs.iter() {
+                    if let Some((t, _)) = r.covers {
+                        if let Some(s) = sets.get_mut(&(r.owner.clone(), t)) {
+                            *s = true;
+                        }
+                    }
+                }
+                for ((owner, t), covered) in sets {
+                    // authoritative RRsets only: not the NS of a delegation, nothing occluded, and only
+                    // names of this zone (an out-of-zone owner cannot be signed by it)
+                    let delegation_ns = t == wl::T_NS && z.is_cut(&owner);
+                    if covered || delegation_ns || !z.in_zone(&owner) || z.occluded(&owner, t) {
+                        continue;
+                    }
+                    return Err(Fail::new(
+                        format!("rrsig-missing:{sec}"),
+                        format!("{} {} in the {sec} section has no covering RRSIG\n{}", canon::show(&owner), wl::type_name(t), ctx()),
+                    ));
+                }
+            }
+            if exp.direct_negative || exp.direct_wildcard {
+                let want = if *sign == Sign::Nsec { wl::T_NSEC } else { wl::T_NSEC3 };
+                if !act.authority.iter().any(|r| r.rtype == want) {
+                    let apex_ns = act.authority.iter().any(|r| r.rtype == wl::T_NS && r.owner == z.origin);
+                    if qtype == wl::T_SOA && exp.direct_wildcard && apex_ns {
+                        return Err(Fail::new(SIG_SOA_QTYPE, format!("wildcard answer to an SOA query: apex NS instead of {}\n{}", wl::type_name(want), ctx())));
+                    }
+                    if *sign == Sign::Nsec && exp.path == PathKind::NxDomain && single_nsec_zone(z) {
+                        return Err(Fail::new(SIG_SINGLE_NSEC, format!("NXDOMAIN without NSEC in a zone whose NSEC chain has one element\n{}", ctx())));
+                    }
+                    return Err(fail(
+                        "denial-missing",
+                        format!("negative / wildcard answer without {} in authority: {}", wl::type_name(want), show_arrs(&act.authority)),
+                    ));
+                }
+            }
+        }
+        // --- AA (last, so that a response deviating only in AA is reported as exactly that) -----------
+        if let Some(aa) = exp.aa {
+            if act.aa != aa {
+                let sig = if exp.path == PathKind::Referral { SIG_REFERRAL_AA.to_string() } else { format!("{p}:aa") };
+                return Err(Fail::new(sig, format!("AA={} but the reference says AA={}\n{}", act.aa, aa, ctx())));
+            }
+        }
+        Ok(())
+    })();
+    v.fail = r.err();
+    v
+}
+
+fn apply_upper(name: &str, mask: u16) -> Name {
+    let mut i = 0u32;
+    wl::parse_name_str(name)
+        .into_iter()
+        .map(|l| {
+            l.into_iter()
+                .map(|b| {
+                    if b.is_ascii_lowercase() {
+                        let up = (mask >> (i % 16)) & 1 == 1;
+                        i += 1;
+                        if up {
+                            b.to_ascii_uppercase()
+                        } else {
+                            b
+                        }
+                    } else {
+                        b
+                    }
+                })
+                .collect()
+        })
+        .collect()
+}
+
+fn nontrivial_path(p: PathKind) -> bool {
+    !matches!(p, PathKind::ExactHost | PathKind::ExactApex)
+}
+
+fn zone_classes(z: &MZone, refz: &RefZone, rec: &mut Rec) {
+    let mut wild = false;
+    let mut inner_wild = false;
+    let mut cut = false;
+    let mut ds = false;
+    let mut cname = false;
+    let mut occluded = false;
+    let mut ent = false;
+    for r in &z.recs {
+        let o = wl::parse_name_str(&r.owner);
+        if o.first().is_some_and(|l| l == b"*") {
+            wild = true;
+        }
+        if o.iter().skip(1).any(|l| l == b"*") {
+            inner_wild = true;
+        }
+        match r.rd {
+            MRData::Ns(_) if r.owner != z.origin => cut = true,
+            MRData::Ds(_) => ds = true,
+            MRData::Cname(_) => cname = true,
+            _ => {}
+        }
+        if refz.occluded(&o, r.rd.rtype()) {
+            occluded = true;
+        }
+        if o.len() > refz.origin.len() + 1 && !refz.has_data(&o[1..]) {
+            ent = true;
+        }
+    }
+    for (on, l) in [
+        (wild, "zone/wildcard"),
+        (inner_wild, "zone/asterisk-inside-name"),
+        (cut, "zone/delegation"),
+        (ds, "zone/ds"),
+        (cname, "zone/cname"),
+        (occluded, "zone/occluded-data"),
+        (ent, "zone/empty-non-terminal"),
+    ] {
+        if on {
+            rec.class(l);
+        }
+    }
+}
+
+fn run_case(c: &Case, rec: &mut Rec, self_check: Option<&[(String, u16, PathKind)]>) -> CaseResult {
+    let _clock = crate::clock::VirtualClock::start(1_750_000_000);
+    if let Err(e) = c.zone.validate() {
+        rec.discard("malformed-zone");
+        let _ = e;
+        return Ok(());
+    }
+    let served_serial = if c.sign.signed() { SOA_SERIAL + 1 } else { SOA_SERIAL };
+    let refz = c.zone.to_ref(served_serial);
+    let catalog = catalog_for(&c.zone, &c.sign)?;
+    rec.class(format!("sign/{}", c.sign.label()));
+    zone_classes(&c.zone, &refz, rec);
+
+    if let Some(expected_paths) = self_check {
+        // the model must reproduce the outcomes RFC 4592 §2.2.1 itself lists for its example zone
+        for (name, qtype, path) in expected_paths {
+            let e = refz.answer(&wl::parse_name_str(name), *qtype);
+            vensure!(
+                e.path == *path,
+                "oracle-self-check",
+                "reference model says {:?} for {} {}, RFC 4592 §2.2.1 says {:?}",
+                e.path,
+                name,
+                wl::type_name(*qtype),
+                path
+            );
+        }
+    }
+
+    let mut fails: Vec<Fail> = Vec::new();
+    let mut nt = 0u64;
+    let mut id = 0x1000u16;
+    for q in &c.queries {
+        let qname = apply_upper(&q.name, q.upper);
+        if q.upper != 0 {
+            rec.class("query/mixed-case");
+        }
+        for qtype in QTYPES {
+            id = id.wrapping_add(1);
+            let opt = q.edns.then(|| wl::OutRr::opt(4096, 0, 0, q.do_bit, vec![]));
+            let bytes = wl::build_query(id, &qname, qtype, 1, opt.as_ref());
+            let exp = refz.answer(&qname, qtype);
+            let msgs = ask(&catalog, bytes, q.tcp)?;
+            let ctx_head = format!(
+                "query {} {} DO={} edns={} {} on {} zone",
+                canon::show(&qname),
+                wl::type_name(qtype),
+                q.do_bit as u8,
+                q.edns as u8,
+                if q.tcp { "tcp" } else { "udp" },
+                c.sign.label()
+            );
+            vensure!(msgs.len() == 1, "response-count", "{} responses\n{ctx_head}\n{}", msgs.len(), c.zone.show());
+            let act = observe(&msgs[0], id)?;
+            let ctx = || {
+                format!(
+                    "{ctx_head}\nreference: path={} rcode∈{:?} aa={:?} answer={} final={:?}\nactual: rcode={} aa={} answer={} authority={}\n{}",
+                    exp.path.label(),
+                    exp.rcodes.iter().map(|r| wl::rcode_name(*r)).collect::<Vec<_>>(),
+                    exp.aa,
+                    auth_ref::show_set(&RefZone::acceptable_answers(&exp)[0]),
+                    exp.final_step,
+                    wl::rcode_name(act.rcode),
+                    act.aa,
+                    show_arrs(&act.answer),
+                    show_arrs(&act.authority),
+                    c.zone.show()
+                )
+            };
+            let v = judge(&refz, &c.sign, q, &qname, qtype, &exp, &act, &ctx);
+            rec.class(format!("path/{}", exp.path.label()));
+            if exp.chain_loop {
+                rec.class("path/cname-loop");
+            }
+            if exp.chain.len() + usize::from(!exp.terminal.is_empty()) > auth_ref::CHAIN_BOUND {
+                rec.class("path/chain-over-bound");
+            }
+            if !exp.chain.is_empty() {
+                rec.class(match exp.final_step {
+                    Step::Data { .. } => "chain-end/data",
+                    Step::NoData { .. } => "chain-end/nodata",
+                    Step::NxDomain { .. } => "chain-end/nxdomain",
+                    Step::Referral { .. } => "chain-end/below-cut",
+                    Step::OutOfZone => "chain-end/out-of-zone",
+                    Step::Cname { .. } => "chain-end/loop",
+                });
+            }
+            if v.truncated {
+                rec.count("truncated-responses", 1);
+            }
+            if q.do_bit && c.sign.signed() {
+                rec.count("signed-do-queries", 1);
+            }
+            if nontrivial_path(exp.path) {
+                nt += 1;
+            }
+            rec.count("queries", 1);
+            if let Some(f) = v.fail {
+                rec.count(format!("deviating-queries/{}", f.sig), 1);
+                fails.push(f);
+            }
+        }
+    }
+    rec.count("nontrivial-queries", nt);
+    if nt > 0 {
+        rec.nontrivial();
+        if rec.wants_note() {
+            let qs: Vec<String> = c.queries.iter().map(|q| q.name.clone()).collect();
+            rec.note(format!("{} [{}] qnames: {} × 9 qtypes", c.zone.show().replace('\n', " | "), c.sign.label(), qs.join(" ")));
+        }
+    }
+    // a deviation that is not a recorded finding always wins over recorded ones found in the same zone
+    if !rec.strict {
+        if let Some(i) = fails.iter().position(|f| !known_sigs().contains(&f.sig)) {
+            return Err(fails.swap_remove(i));
+        }
+    }
+    match fails.into_iter().next() {
+        Some(f) => Err(f),
+        None => Ok(()),
+    }
+}
+
+// ---------------------------------------------------------------------------------------------
+// RFC 4592 §2.2.1 example zone with the outcomes the RFC lists (SRV replaced by TXT: the qtype
+// universe of this check has no SRV; the structure — `_ssh._tcp.host1` below `host1` — is kept)
+
+fn rfc4592_zone() -> MZone {
+    let r = |o: &str, rd: MRData| MRec {
+        owner: o.to_string(),
+        rd,
+    };
+    MZone {
+        origin: "example.".into(),
+        recs: vec![
+            r("example.", MRData::Ns("ns.example.com.".into())),
+            r("example.", MRData::Ns("ns.example.net.".into())),
+            r("*.example.", MRData::Txt("this is a wildcard".into())),
+            r("*.example.", MRData::Mx(10, "host1.example.".into())),
+            r("sub.*.example.", MRData::Txt("this is not a wildcard".into())),
+            r("host1.example.", MRData::A(1)),
+            r("_ssh._tcp.host1.example.", MRData::Txt("srv".into())),
+            r("_ssh._tcp.host2.example.", MRData::Txt("srv".into())),
+            r("subdel.example.", MRData::Ns("ns.example.com.".into())),
+            r("subdel.example.", MRData::Ns("ns.example.net.".into())),
+        ],
+    }
+}
+
+fn rfc4592_expectations() -> Vec<(String, u16, PathKind)> {
+    vec![
+        ("host3.example.".into(), wl::T_MX, PathKind::Wildcard),
+        ("host3.example.".into(), wl::T_A, PathKind::WildcardNoData),
+        ("foo.bar.example.".into(), wl::T_TXT, PathKind::Wildcard),
+        ("host1.example.".into(), wl::T_MX, PathKind::NoDataExisting),
+        ("sub.*.example.".into(), wl::T_MX, PathKind::NoDataExisting),
+        ("_telnet._tcp.host1.example.".into(), wl::T_TXT, PathKind::NxDomain),
+        ("host.subdel.example.".into(), wl::T_A, PathKind::Referral),
+        ("ghost.*.example.".into(), wl::T_MX, PathKind::NxDomain),
+        // further readings of the same section
+        ("_tcp.host1.example.".into(), wl::T_A, PathKind::NoDataEnt),
+        ("*.example.".into(), wl::T_MX, PathKind::ExactHost),
+        ("host2.example.".into(), wl::T_A, PathKind::NoDataEnt),
+    ]
+}
 
 pub fn check() -> Option<Check> {
-    None
+    let answers = prop(
+        "answers",
+        8_000,
+        300_000,
+        case_strategy,
+        |c: &Case, rec: &mut Rec| run_case(c, rec, None),
+    );
+    let rfc = enumerate(
+        "rfc4592_examples",
+        |_env| {
+            let zone = rfc4592_zone();
+            let names: Vec<String> = rfc4592_expectations().into_iter().map(|e| e.0).collect();
+            let mut cases = Vec::new();
+            for sign in [
+                Sign::Unsigned,
+                Sign::Nsec,
+                Sign::Nsec3 {
+                    iterations: 1,
+                    salt_len: 4,
+                    opt_out: false,
+                },
+            ] {
+                for name in &names {
+                    for do_bit in [false, true] {
+                        cases.push(Case {
+                            zone: zone.clone(),
+                            sign: sign.clone(),
+                            queries: vec![QSpec {
+                                name: name.clone(),
+                                do_bit,
+                                edns: do_bit,
+                                tcp: true,
+                                upper: 0,
+                            }],
+                        });
+                    }
+                }
+            }
+            (Box::new(cases.into_iter()) as Box<dyn Iterator<Item = Case> + Send>, true)
+        },
+        |c: &Case, rec: &mut Rec| {
+            let exp = rfc4592_expectations();
+            run_case(c, rec, Some(&exp))
+        },
+    );
+    Some(Check {
+        id: "C10",
+        level: "exploration",
+        rule: "zones constructed over labels {a,b,*,c,sub,ns,k0..k9}, depth ≤ 3 under the apex (hosts, ENTs, wildcards incl. *.a / a.* / sub.*, CNAME chains+loops with in/out-of-zone targets, delegations ±glue ±DS, occluded data), unsigned / NSEC / NSEC3-signed; per zone 5–8 query names in and around it (own names, ancestors, children, below cuts/wildcards/leaves, above and beside the apex, mixed case) × qtypes {A,AAAA,MX,NS,CNAME,SOA,DS,TXT,ANY} × DO/EDNS/UDP/TCP; every response compared with the RFC 1034 §4.3.2 + RFC 4592 reference model. A case (zone + its queries) is non-trivial iff at least one query's reference path is not an exact match of a plain host/apex RRset (CNAME, referral, wildcard, ENT, NODATA, NXDOMAIN, DS-at-cut, ANY, out-of-zone); counters.nontrivial-queries counts such (zone, query) pairs; distinct = hash of (zone, signing mode, queries).",
+        assumptions: vec![
+            "response octets are read with the harness's own RFC 1035 wire reader; additional section, record order, TTLs and out-of-zone CNAME targets are not judged",
+            "after a CNAME chain the RCODE of a non-existent in-zone target may be NOERROR (RFC 1034 §4.3.2 3c) or NXDOMAIN (RFC 2308/6604); the authority section after a chain is not judged",
+            "chains longer than the server's documented bound of 8 RRsets, and CNAME loops, only require a duplicate-free prefix of the chain",
+            "QTYPE=ANY: RCODE and 'records owned by QNAME ⊆ RRsets at that name' only (RFC 8482)",
+            "DNSSEC clause checks presence (covering RRSIG per authoritative RRset; at least one NSEC/NSEC3 on negative and wildcard answers), not sufficiency of the proof (C08/C09)",
+            "truncated (TC) responses are counted and not compared",
+        ],
+        subs: vec![answers, rfc],
+    })
 }
